@@ -266,12 +266,28 @@ var alpSuf = []string{"alpha", "beta", "pre", "rc", "cvs", "svn", "git", "hg", "
 func gAlpine(r *rand.Rand) string {
 	s := dotted(r, 1, 4, []string{"."}) + opt(r, 4, pick(r, []string{".", ".."}))
 	s += opt(r, 25, pick(r, []string{"a", "b", "z", "A", "ab"}))
-	for i, n := 0, r.Intn(3); i < n; i++ {
+	for i, n := 0, r.Intn(4); i < n; i++ {
 		s += "_" + pick(r, alpSuf) + opt(r, 60, num(r))
 	}
 	s += opt(r, 10, "~"+pick(r, []string{"abc", "1f", "g", "", "ABC", "0123456789abcdef"}))
 	s += opt(r, 35, "-r"+opt(r, 85, num(r))+opt(r, 6, pick(r, []string{"x", "_p1", "-r1"})))
 	return s
+}
+
+// valid Alpine versions with two or more suffixes (and usually a build component): N(.N)*[a-z]?(_suffixN?){2,}(-rN)?
+var alpSufValid = []string{"alpha", "beta", "pre", "rc", "cvs", "svn", "git", "hg", "p"}
+var alpNumsPlain = []string{"0", "1", "2", "3", "9", "10", "11", "20", "100"}
+
+func gAlpineMulti(r *rand.Rand, base string) string {
+	s := base + opt(r, 15, pick(r, []string{"a", "b", "z"}))
+	for i, n := 0, 2+r.Intn(2); i < n; i++ {
+		s += "_" + pick(r, alpSufValid) + opt(r, 75, pick(r, alpNumsPlain))
+	}
+	return s + opt(r, 60, "-r"+pick(r, alpNumsPlain))
+}
+
+func gAlpineBase(r *rand.Rand) string {
+	return pick(r, []string{"1.9", "1.10", "1.9.5", "1.9.10", "2", "1", "1.10.1", "0.9"})
 }
 
 var mvnQual = []string{"alpha", "beta", "milestone", "rc", "cr", "snapshot", "SNAPSHOT", "ga", "final", "release", "sp", "a", "b", "m", "foo", "xyz", "Final", "RC", "jre", "android", "", "f\u0130nal", "\u212a"}
@@ -461,8 +477,8 @@ var families = []family{
 		bases:    []string{"1.0", "1.2.3"},
 		classes:  []string{"", "_alpha", "_beta", "_pre", "_rc", "_cvs", "_svn", "_git", "_hg", "_p", "a", "b", ".1", ".0", "-r1", "_x", "~abc"},
 		sufs:     []string{"", "1", "2", "-r1"},
-		extBases: []string{"1.0", "1.0_rc1", "1.0a"},
-		exts:     []string{".0", "_p", "_alpha", "a", "-r0", ".0.0", "_p0", "0", ".00", "_rc"}},
+		extBases: []string{"1.9_rc1", "1.10_rc1_p1", "1.0", "1.0a", "1.9.5"},
+		exts:     []string{".0", "_p", "_alpha", "a", "-r0", ".0.0", "_p0", "0", ".00", "_rc", "_p1", "_p10", "_p9-r2", "_git1_p2", "_alpha1_beta2-r3", "-r2", "_cvs", "_hg5"}},
 	{name: "maven", ecos: []string{"Maven"},
 		alpha12: []string{"0", "1", "2", ".", "-", "a", "r", "c", "f", "o", "s", "p"},
 		toks:    []string{"0", "1", "2", "10", "01", "007", "1.0", "1.0.0", ".", "-", "..", "--", ".0", "-0", "final", "ga", "release", "cr", "CR1", "sp", "SP2", "snapshot", "SNAPSHOT", "milestone", "m1", "m", "a1", "b2", "a", "b", "foo", "Final", "-final", "jre", "rc", "alpha", "beta", bigNum, "é", "é1", "€2", "x", "_", "+"},
@@ -579,6 +595,20 @@ func genPair(r *rand.Rand, f *family) (string, string) {
 			return a, f.canon(genome(r))
 		}
 	}
+	if f.name == "alpine" && r.Intn(100) < 12 {
+		x := gAlpineBase(r)
+		a := gAlpineMulti(r, x)
+		switch r.Intn(4) {
+		case 0: // the same version with its last suffix (and build component) removed / changed
+			return a, gAlpineMulti(r, x)
+		case 1:
+			return a, x + "_" + pick(r, alpSufValid) + opt(r, 60, pick(r, alpNumsPlain))
+		case 2:
+			return a, x
+		default:
+			return a, gAlpineMulti(r, gAlpineBase(r))
+		}
+	}
 	if r.Intn(100) < 4 {
 		a := pick(r, f.extBases)
 		if r.Intn(2) == 0 {
@@ -602,6 +632,17 @@ func genPair(r *rand.Rand, f *family) (string, string) {
 func genTriple(r *rand.Rand, f *family) (string, string, string) {
 	if f.name == "maven" && r.Intn(2) == 0 {
 		return gMavenCanon(r), gMavenCanon(r), gMavenCanon(r)
+	}
+	if f.name == "alpine" && r.Intn(3) == 0 {
+		// a plain (or one-suffix) version and two versions with 2+ suffixes, on the same or neighbouring bases
+		x, y := gAlpineBase(r), gAlpineBase(r)
+		p := []string{x + opt(r, 40, "_"+pick(r, alpSufValid)+opt(r, 60, pick(r, alpNumsPlain))) + opt(r, 30, "-r"+pick(r, alpNumsPlain)),
+			gAlpineMulti(r, pick(r, []string{x, y})), gAlpineMulti(r, pick(r, []string{x, y}))}
+		if r.Intn(3) == 0 {
+			p[0] = gAlpineMulti(r, x)
+		}
+		r.Shuffle(3, func(i, j int) { p[i], p[j] = p[j], p[i] })
+		return p[0], p[1], p[2]
 	}
 	if r.Intn(3) == 0 {
 		return pick(r, f.triPool), pick(r, f.triPool), pick(r, f.triPool)
